@@ -748,10 +748,19 @@ theorem parse_printFull (e : PExpr) (h : ListsOk e = true) :
   change (match parseBp D (32 * (full e).length + 32) 0 (full e) with | some (e, []) => some e | _ => none) = some e
   rw [this]
 
-/-- What is *not* proved (only tested by engine `parse` on every run): the lexer turns the text of a token list
-    — tokens written as the SQL printer writes them, separated by blanks — back into that token list. -/
-def lex_render_statement (render : List Tok → List Nat) : Prop :=
-  ∀ ts : List Tok, lexAll (render ts) = some ts
+/-- **The lexer reads rendered tokens back**: for every list of printable tokens (numbers, strings with any bytes,
+    identifiers that start with a letter or `_`, continue with letters, digits, `_` and are not keywords, the keywords
+    and operators of the expression grammar) the text "tokens separated by single blanks" is lexed to that list. -/
+theorem lex_render_tokens (ts : List Tok) (h : ∀ t ∈ ts, PrintableTok t = true) : lexAll (render ts) = some ts :=
+  lex_render ts h
+
+/-- **Text → AST, end to end.** The minimal-parentheses *text* of every printable expression whose identifiers are
+    lexable is read back — by the lexer and the Pratt parser on the extracted binding-power table — as the same tree. -/
+theorem parse_text_roundtrip (e : PExpr) (hp : Printable e = true) (hi : IdentsOk e = true) :
+    (lexAll (render (printMin docTable e))).bind (parseExpr Generated.parseTable) = some e := by
+  have hl := lex_render (printMin docTable e) (body_printable e hi)
+  rw [hl]
+  exact parse_printMin e hp
 
 /-- instances of the minimal-parentheses statement on the classical traps (checked by evaluation) -/
 theorem parse_printMin_examples :
@@ -787,6 +796,7 @@ theorem unaryBindsLooser_witness :
   refine ⟨rfl, rfl⟩
 
 /-- hypotheses are satisfiable -/
+example : IdentsOk (.bin .and (.un .not (.qident [116] [99, 49])) (.ident [95, 120])) = true := by decide
 example : ListsOk (.inList true (.ident [97]) [.num 1, .bin .plus (.num 2) (.ident [98])]) = true := by decide
 
 end ParserTheorems
